@@ -193,3 +193,53 @@ def replay(path):
     cases = [dict(c["case"], id=i + 1) for i, c in enumerate(rec["cases"])]
     run(chk, cases, 120)
     return chk.finish()
+
+
+def selftest():
+    """the binding is not vacuous: corrupted traces of a real run must be rejected by SolverTrace"""
+    import copy
+    chk = Check(PID, "quick")
+    g = pj.grammar_to_json(catalogue.ASSGN2)
+    base = {"grammar": "ASSGN2", "g": g, "fam": "selftest", "text": 'exists <var> v in start: (= v "a")',
+            "phi": EX("<var>", "v", SMT(A("=", V("v"), S("a")))), "settings": {"timeout_seconds": 3}, "calls": 4, "seed": 1,
+            "ticks": [{"at": "call", "n": 3, "by": 9}], "id": 1}
+    wd = tlc.workdir("c02self")
+    try:
+        t = sc.record(chk, [base], 120)[0]
+        variants = {"original": t}
+
+        def mutate(name, fn):
+            v = copy.deepcopy(t)
+            v["id"] = len(variants) + 1
+            fn(v["events"])
+            variants[name] = v
+        rets = [i for i, e in enumerate(t["events"]) if e["ev"] == "Return"]
+        adm = [i for i, e in enumerate(t["events"]) if e["ev"] == "Admit" and e["kind"] == "Solution"]
+        tmo = [i for i, e in enumerate(t["events"]) if e["ev"] == "Timeout"]
+        assert len(rets) >= 2 and adm and tmo, (len(rets), len(adm), len(tmo), [e["ev"] for e in t["events"]])
+        mutate("returns-swapped", lambda ev: ev.__setitem__(rets[0], dict(ev[rets[1]])) or ev.__setitem__(rets[1], dict(t["events"][rets[0]])))
+        mutate("admission-dropped", lambda ev: ev.pop(adm[0]))
+        mutate("solution-after-timeout", lambda ev: ev.append({"ev": "Call"}) or ev.append(dict(t["events"][rets[0]])))
+        mutate("timeout-without-clock", lambda ev: [ev.pop(i) for i in reversed([k for k, e in enumerate(ev) if e["ev"] == "Tick"])])
+
+        def violate(ev):
+            tree = ev[rets[0]]["tree"]
+
+            def leaves(n):
+                if not n["nt"]:
+                    n["c"] = [ord("b")] if n["c"] == [ord("a")] else n["c"]
+                for ch in n["ch"]:
+                    leaves(ch)
+            leaves(tree)
+        mutate("returned-tree-violates-constraint", violate)
+        mutate("queue-length-off", lambda ev: [e.__setitem__("qlen", e["qlen"] + 1) for e in ev if e["ev"] == "Pop"][:1])
+        verdicts = sc.validate(chk, wd, list(variants.values()))
+        ok = True
+        for name, v in variants.items():
+            verdict = verdicts[v["id"]][0]
+            expect = "accepted" if name == "original" else "rejected"
+            print("selftest %-36s -> %s %s" % (name, verdict, "" if verdict == expect else "(UNEXPECTED)"))
+            ok = ok and verdict == expect
+        return 0 if ok else 2
+    finally:
+        shutil.rmtree(wd, ignore_errors=True)
